@@ -295,7 +295,10 @@ func (db *DB) Delete(key []byte) error {
 
 // ListKeys 获取数据库中的所有 key
 func (db *DB) ListKeys() [][]byte {
+	// 快照须对应某一时刻: 创建期间持有读锁以与写入互斥
+	db.mu.RLock()
 	iterator := db.index.Iterator(false)
+	db.mu.RUnlock()
 	defer iterator.Close()
 	// 快照中的 key 数量可能与此刻索引的大小不同, 不可预先按索引大小定长
 	keys := make([][]byte, 0)
@@ -309,7 +312,10 @@ func (db *DB) ListKeys() [][]byte {
 // Fold 对数据库所有项执行自定义操作, 项改变不会同步数据库
 func (db *DB) Fold(fn func(key []byte, value []byte) bool) error {
 	// 利用索引迭代器进行遍历
+	// 快照须对应某一时刻: 创建期间持有读锁以与写入互斥
+	db.mu.RLock()
 	iterator := db.index.Iterator(false)
+	db.mu.RUnlock()
 	// 使用完成后必须关闭, 否则可能导致 B+ 树索引的读写事务互斥阻塞
 	defer iterator.Close()
 	for iterator.Rewind(); iterator.Valid(); iterator.Next() {
